@@ -933,8 +933,7 @@ def sort_by_spec(c, a, st, v):
 
 @spec("array::traits::Array::is_empty")
 def is_empty_spec(c, a, st, v):
-    ok = isinstance(v, VBool) and v.f == ("cmp", "eq", t_len(a["self"].t))
-    c.ob("ENS", "is_empty ⇔ len == 0", show_formula(v.f) if isinstance(v, VBool) else repr(v), ok, st)
+    bool_iff(c, st, v, ("cmp", "eq", t_len(a["self"].t)), "is_empty ⇔ len == 0")
 
 
 # ------------------------------------------------------------------ lax diagrams (C02, C04, C09, C10, C11)
